@@ -238,3 +238,55 @@ PROPS['C12'] = dict(
         explanation='thorough enumerates the complete argument domain of every u8 / u16 / enum setter (and so every content of every field up to 16 bits), '
                     'but buffers and 32 / 128-bit values are sampled; the for-all-buffers statement is carried by the Coq theorems',
     )
+
+
+# ---- C14 / C04 packet half (modes c14, c04pkt of harness/hcore) ----
+def compare_pkt(inp, impl_out, model_out):
+    """identical canonical output; an implementation panic (fault:panic) matches any model fault (fault:<Name>)"""
+    return norm_fault(impl_out) == norm_fault(model_out)
+
+
+def c14_nontrivial(inp, outp):
+    t = toks(inp)
+    if t[0] == 'c14':
+        # a message from the RFC builder (expectation known), or any message in which an extension structure was found
+        return t[5] != '?' or (' x=~' not in outp and ' x=err' not in outp)
+    if t[0] == 'exts':
+        return outp.startswith('+') and len(outp) > 1
+    if t[0] == 'iter':
+        return not outp.startswith('-') and outp != 'err'
+    return t[0] == 'build'
+
+
+def c04pkt_nontrivial(inp, outp):
+    # the view was accepted (buffer >= minimum size), i.e. accessors actually ran
+    return outp != 'err'
+
+
+C14_RULE = ('RFC 4884/4950 messages from an independent Rust builder: every length attribute 1..255 x {aligned, 1 short, word-1 short} x ICMPv4/ICMPv6 x '
+            'Time Exceeded/Destination Unreachable x 0..6 random objects (MPLS stacks of depth 1..8 with boundary labels, other classes with payloads 0..40 octets) x parse mode; '
+            'legacy 128-octet messages; object count 0..6 x stack depth 0..8 x both conventions; corruption stream (every truncation, every value of the length attribute, '
+            'version nibble, object length fields at boundary values, class octets, S bits); random messages with planted extension headers; the two iterators and '
+            'Extensions::try_from on raw buffers of every length 0..72 (thorough 0..200); builder tie (Coq build_message = Rust builder). '
+            'Compared: payload(), extension(), nested datagram + decoded Extensions (canonical encoding) under the parse mode. Oracle: equality with what the builder encoded, '
+            'pointer-range check (inside / disjoint / in order), iteration bound len/4. non-trivial = built message, or an extension structure was found / items were yielded; '
+            'distinct = distinct input line')
+C04PKT_RULE = ('every non-mutating accessor + Debug of the 19 packet views (Ipv4, Ipv6, Udp, Tcp, Icmp/EchoRequest/EchoReply/TimeExceeded/DestinationUnreachable x v4/v6, '
+               'Extensions, ExtensionHeader, ExtensionObject, MplsLabelStack, MplsLabelStackMember) over: buffers of every length 0..min+4 (random and all-0xFF), random buffers, '
+               'structure-aware packets with one length-like field set to a boundary value or truncated; plus exhaustive sweeps, one line per buffer length from the minimum to 160 '
+               '(thorough: 1024): IHL 0..15, TCP data offset 0..15, RFC 4884 length octet 0..255 (4 views), IPv6 payload length / extension object length at the boundary set around the buffer length. '
+               'Oracle: did any accessor panic. non-trivial = the view accepted the buffer; distinct = distinct input line')
+
+
+PROPS['C14'] = dict(
+        crates=['hcore'], modes=[('hcore', 'c14')], nontrivial=c14_nontrivial, rule=C14_RULE, compare=compare_pkt, oracle_tag='C14',
+        exhaustive={'quick': False, 'thorough': False},
+        explanation='the length attribute (255 values x 3 paddings x 2 families) and every truncation point / length-octet value of the corruption bases are enumerated completely; '
+                    'object lists, payload contents and random messages are sampled; the theorems quantify over all messages',
+        timeout={'quick': 300, 'thorough': 1500})
+PROPS['C04'] = dict(  # packet half only (mode c04pkt); the receive-path mode is added by the integrator
+        crates=['hcore'], modes=[('hcore', 'c04pkt')], nontrivial=c04pkt_nontrivial, rule=C04PKT_RULE, compare=compare_pkt, oracle_tag='C04',
+        exhaustive={'quick': False, 'thorough': False},
+        explanation='field value x buffer length products are enumerated completely up to length 160 (quick) / 1024 (thorough); buffer contents are sampled',
+        timeout={'quick': 300, 'thorough': 1500})
+
